@@ -447,6 +447,12 @@ def _kinds_c13(T, extra, win=(1, None)):
     out.append(('storage2', [slack(T, 'n1', pr, lo=-2, hi=2), F.storage(T, 'n1', size=4, cin=2, cout=1, eff=(1, 2), costin=1, ws=ws, we=we, **extra)]))
     out.append(('multi', [F.multi(T, ['n1', 'n2'], [(1, 1), (1, 2)], 0, 2, pr, ws=ws, we=we, **extra), slack(T, 'n1', ([3, 1, 4, 2, 5, 1, 2, 3] * T)[:T], lo=-2, hi=2),
                           slack(T, 'n2', ([1, 2, 1, 2, 1, 2, 1, 2] * T)[:T], lo=-2, hi=2)]))
+    # take periods on assets with the option: a cap on a cheap source, a must-take on a costly transport (whole horizon and a part of it)
+    out.append(('contract_take', [F.contract(T, 'n1', 0, 2, [1] * T, takes=[dict(s=0, e=T, vol=2, sense='max')], force_contract=True, ws=ws, we=we, **extra),
+                                  slack(T, 'n1', ([3, 1, 4, 2, 5, 1, 2, 3] * T)[:T], lo=-4, hi=0)]))
+    out.append(('transport_take', [slack(T, 'n1', ([1, 1, 1, 1, 1, 1, 1, 1] * T)[:T], lo=-4, hi=4),
+                                   F.transport(T, 'n1', 'n2', 0, 2, cost=3, takes=[dict(s=0, e=2 * (T // 4) + 2, vol=2, sense='min')], ws=ws, we=we, **extra),
+                                   slack(T, 'n2', ([1, 1, 1, 1, 1, 1, 1, 1] * T)[:T], lo=-4, hi=4)]))
     return out
 
 
